@@ -133,6 +133,12 @@ def run(chk):
         {'pat': rl.s2l('img/') + [TOKEN] + rl.s2l('2x.png'), 'filters': ['re([a-z]+)'], 'names': ['name']},
         {'pat': [TOKEN] + rl.s2l('4') + [TOKEN], 'filters': ['re([a-z]+)', 'None'], 'names': ['lang', 'topic']},
         {'pat': rl.s2l('v/') + [TOKEN] + rl.s2l('1/') + [TOKEN] + rl.s2l('007'), 'filters': ['None', 're([a-z]+)'], 'names': ['a', '']},
+        # literal text with characters that mean something to str.format / to the rule syntax's closing side
+        {'pat': rl.s2l('tpl/a}b/') + [TOKEN], 'filters': ['None'], 'names': ['x']},
+        {'pat': rl.s2l('obj}/') + [TOKEN], 'filters': ['int(None)'], 'names': ['id']},
+        {'pat': rl.s2l('m/}}/') + [TOKEN] + rl.s2l('/end'), 'filters': ['float(None)'], 'names': ['x']},
+        {'pat': rl.s2l('d/') + [TOKEN] + rl.s2l('}/z>'), 'filters': ['path(}/z>)'], 'names': ['p']},
+        {'pat': rl.s2l('%s/{0}'.replace('{', '(').replace('}', ')') + '/') + [TOKEN] + rl.s2l('%d>)'), 'filters': ['None'], 'names': ['']},
         # directly adjacent wildcards followed by literal text
         {'pat': [TOKEN, TOKEN] + rl.s2l('/tail'), 'filters': ['int(None)', 'None'], 'names': ['a', 'b']},
         {'pat': rl.s2l('x/') + [TOKEN, TOKEN] + rl.s2l('-end/') + [TOKEN], 'filters': ['int(None)', 're([a-z]+)', 'None'], 'names': ['n', 'w', 'z']},
